@@ -134,6 +134,31 @@ def run_nodecache(ctx: Ctx) -> RuleResult:
             if not ok:
                 res.finding(f, st, 'the derivation is not attached to the node of its own label (%s.node.add_family(%s.s, ...))' % (item, item),
                             construct='family:' + (norm(fam)[:60] if fam is not None else 'none'))
+        # merging the families of a carried-over node: rule, left and right all come from the same child
+        for n in f.body_nodes():
+            if isinstance(n, ast.For) and norm(n.iter).endswith('.node.children') and isinstance(n.target, ast.Name):
+                cv = n.target.id
+                for x in ast.walk(n):
+                    if isinstance(x, ast.Call) and norm(x.func).endswith('.node.add_family') and len(x.args) >= 5:
+                        ok = norm(x.args[1]) == cv + '.rule' and norm(x.args[3]) == cv + '.left' and norm(x.args[4]) == cv + '.right'
+                        res.ob('%s %s' % (f.loc(x), f.qual), 'a merged family keeps its own rule, left and right (%s.rule/.left/.right)' % cv, ok)
+                        if not ok:
+                            res.finding(f, enclosing_stmt(x), 'when the families of a carried-over node are merged, rule/left/right are not all '
+                                        'taken from the same packed child: derivations are attributed to the wrong rule',
+                                        construct='merge-family:' + norm(x)[:90])
+        # elsewhere the family's rule is the rule of the item that was advanced
+        for n in f.body_nodes():
+            if isinstance(n, ast.Call) and norm(n.func).endswith('.node.add_family') and len(n.args) >= 2 \
+                    and not any(isinstance(a, ast.For) and norm(a.iter).endswith('.node.children') for a in ancestors(n)):
+                leo = any(isinstance(a, ast.If) and 'transitives[' in norm(a.test) for a in ancestors(n))
+                if leo and dead:
+                    continue
+                item0 = norm(n.func)[:-len('.node.add_family')]
+                ok = norm(n.args[1]).endswith('.rule') and norm(n.args[1])[:-5] in (item0, 'item', 'new_item', 'originator')
+                res.ob('%s %s' % (f.loc(n), f.qual), 'the family\'s rule is the advanced item\'s rule (%s)' % norm(n.args[1]), ok)
+                if not ok:
+                    res.finding(f, enclosing_stmt(n), 'add_family is given %s as the rule of the derivation' % norm(n.args[1]),
+                                construct='family-rule:' + norm(n.args[1]))
         ok = len(ends) <= 1
         res.ob('%s %s' % (f.loc(), f.qual), 'label end component is uniform in this function: %s' % sorted(ends), ok)
         if not ok:
@@ -211,7 +236,8 @@ def run_visit_guard(ctx: Ctx) -> RuleResult:
             oc.add(norm(n.targets[0]))
     pushes = [n for n in ast.walk(loop) if isinstance(n, ast.Call) and norm(n.func) == 'input_stack.append']
     res.require_instances(len(pushes), 2, 'pushes onto the walk stack')
-    for p in pushes:
+    pushes.sort(key=lambda c: (c.lineno, c.col_offset))
+    for p_i, p in enumerate(pushes, 1):
         st = enclosing_stmt(p)
         arg = norm(p.args[0])
         guarded = False
@@ -236,7 +262,7 @@ def run_visit_guard(ctx: Ctx) -> RuleResult:
         res.ob(f.loc(p), 'push of %s is preceded by `if id(%s) in visiting: on_cycle(...); continue`' % (arg, arg), guarded)
         if not guarded:
             res.finding(f, st, 'a node is pushed on the walk stack without checking whether it is already on the current path: the walk '
-                        'does not terminate on cyclic forests (and on_cycle is never called)', construct='unguarded-push:' + arg)
+                        'does not terminate on cyclic forests (and on_cycle is never called)', construct='unguarded-push#%d:%s' % (p_i, arg))
     # in/out pairing
     adds = [n for n in ast.walk(loop) if isinstance(n, ast.Call) and norm(n.func) == 'visiting.add']
     rems = [n for n in ast.walk(loop) if isinstance(n, ast.Call) and norm(n.func) in ('visiting.remove', 'visiting.discard')]
